@@ -7,7 +7,10 @@
 (*          every point from an unrestricted data object), got (theory     *)
 (*          returned for the restricted data object)                       *)
 (*  Agree   results per interface for one request (same model, q, values,  *)
-(*          dispersity, cutoff)                                            *)
+(*          dispersity, cutoff); "sasview-array" is the SasView-style      *)
+(*          object with its distributions handed over as array             *)
+(*          distributions (the parametric points and weights, or free-form *)
+(*          ones compared with the same mesh given to the kernel, "mesh")  *)
 (***************************************************************************)
 EXTENDS TraceBase, IEEE
 VARIABLES kind, form, answer
@@ -35,7 +38,7 @@ ApplySelect(e) ==
 ApplyAgree(e) ==
     LET ref == e.results[1].val
         bad == {k \in 2..Len(e.results) :
-                  IF e.results[k].iface = "sasview" THEN ~FVecNear(e.results[k].val, ref, "1e-13", "1e-300")
+                  IF e.results[k].iface \in {"sasview", "sasview-array"} THEN ~FVecNear(e.results[k].val, ref, "1e-13", "1e-300")
                   ELSE ~FVecBits(e.results[k].val, ref)}
     IN IF \E k \in 1..Len(e.results) : e.results[k].raised # "" THEN
             <<"raised", ToString({<<e.results[k].iface, e.results[k].raised>> : k \in {j \in 1..Len(e.results) : e.results[j].raised # ""}})>>
